@@ -10,8 +10,9 @@ package health
 // lists every object outside the destination, empty directories included).
 // Plus the "missing parents" family: entries (file, dir, hard link, symlink) whose name has one or
 // two missing intermediate directories below every place where an earlier entry can have put a
-// link, after every single entry and after every pair (top-level symlink, dir|symlink): creating
-// those parents through a link that leads outside leaves new directories outside the destination.
+// link, after every single entry and after every pair (top-level symlink, dir|symlink below it)
+// (thorough: every pair symlink, dir|symlink): creating those parents through a link that leads
+// outside leaves new directories outside the destination.
 
 import (
 	"archive/tar"
@@ -106,35 +107,75 @@ type c27hRes struct {
 	extracted bool
 }
 
-// c27hExec builds a private scratch tree, extracts the archive with the real code and snapshots
-// everything outside the destination before and after. Safe to run concurrently.
-func c27hExec(c c27hCase) (res c27hRes) {
+// c27hWorld is one worker's private scratch tree. It is built once; after a case that left the
+// outside untouched only the destination is emptied, otherwise the whole tree is rebuilt.
+type c27hWorld struct {
+	root, dest string
+	pristine   string // snapshot of everything outside dest in the freshly built tree
+}
+
+func c27hNewWorld() (*c27hWorld, error) {
 	root, err := os.MkdirTemp("", "c27h")
 	if err != nil {
-		res.herr = "mkdtemp: " + err.Error()
-		return
+		return nil, err
 	}
-	defer os.RemoveAll(root)
-	dest := filepath.Join(root, "work", "upload-dir-1")
-	os.MkdirAll(dest, 0o755)
-	os.MkdirAll(filepath.Join(root, "work", "upload-dir-1x"), 0o755) // a sibling whose name extends the destination's
-	os.MkdirAll(filepath.Join(root, "outside"), 0o755)
-	os.WriteFile(filepath.Join(root, "outside", "secret"), []byte("SECRET"), 0o600)
-	os.WriteFile(filepath.Join(root, "work", "sibling"), []byte("SIBLING"), 0o600)
-	res.before = c27hSnapshot(root, dest)
+	w := &c27hWorld{root: root, dest: filepath.Join(root, "work", "upload-dir-1")}
+	if err := w.build(); err != nil {
+		os.RemoveAll(root)
+		return nil, err
+	}
+	return w, nil
+}
+
+func (w *c27hWorld) build() error {
+	ents, _ := os.ReadDir(w.root)
+	for _, e := range ents {
+		if err := os.RemoveAll(filepath.Join(w.root, e.Name())); err != nil {
+			return err
+		}
+	}
+	for _, d := range []string{w.dest, filepath.Join(w.root, "work", "upload-dir-1x") /* a sibling whose name extends the destination's */, filepath.Join(w.root, "outside")} {
+		if err := os.MkdirAll(d, 0o755); err != nil {
+			return err
+		}
+	}
+	if err := os.WriteFile(filepath.Join(w.root, "outside", "secret"), []byte("SECRET"), 0o600); err != nil {
+		return err
+	}
+	if err := os.WriteFile(filepath.Join(w.root, "work", "sibling"), []byte("SIBLING"), 0o600); err != nil {
+		return err
+	}
+	w.pristine = c27hSnapshot(w.root, w.dest)
+	return nil
+}
+
+// exec extracts the archive with the real code into the (empty) destination and snapshots
+// everything outside the destination afterwards (names are relative to the scratch root, so the
+// snapshots compare across workers and runs).
+func (w *c27hWorld) exec(c c27hCase) (res c27hRes) {
+	res.before = w.pristine
 	func() {
 		defer func() {
 			if p := recover(); p != nil {
 				res.panicked = fmt.Sprint(p)
 			}
 		}()
-		extractTarWithFallback(bytes.NewReader(c27hArchive(c)), dest)
+		extractTarWithFallback(bytes.NewReader(c27hArchive(c)), w.dest)
 	}()
-	res.after = c27hSnapshot(root, dest)
-	if entries, _ := os.ReadDir(dest); len(entries) > 0 {
-		res.extracted = true
+	res.after = c27hSnapshot(w.root, w.dest)
+	entries, derr := os.ReadDir(w.dest)
+	res.extracted = len(entries) > 0
+	var err error
+	if res.after != res.before || derr != nil {
+		err = w.build()
+	} else if len(entries) > 0 {
+		if err = os.RemoveAll(w.dest); err == nil {
+			err = os.Mkdir(w.dest, 0o755)
+		}
 	}
-	// the snapshots embed no absolute path (names are relative to root), so they compare across runs
+	if err != nil {
+		res.herr = "scratch tree: " + err.Error()
+	}
 	return
 }
 
@@ -184,7 +225,13 @@ func TestVerif_C27_Health(t *testing.T) {
 	var rp c27hCase
 	if r.ReplayInto(&rp) {
 		if len(rp.Entries) > 0 {
-			c27hReport(r, rp, c27hExec(rp))
+			w, err := c27hNewWorld()
+			if err != nil {
+				r.HarnessError("scratch tree: %v", err)
+			} else {
+				c27hReport(r, rp, w.exec(rp))
+				os.RemoveAll(w.root)
+			}
 		}
 		if err := r.Finish(); err != nil {
 			t.Fatal(err)
@@ -203,10 +250,16 @@ func TestVerif_C27_Health(t *testing.T) {
 	// entries with one or two missing intermediate directories (n, n/m) below every place a link can
 	// be: the relative names of the alphabet and the last components of its two-component names
 	var deep []c27hEntry
-	for _, suffix := range []string{"/n/f", "/n/m/f"} {
-		for _, p := range []string{"a", "b", "c", "a/b", "a/c"} {
-			deep = append(deep, c27hEntry{"file", p + suffix, ""}, c27hEntry{"dir", p + suffix, ""},
-				c27hEntry{"hardlink", p + suffix, "."}, c27hEntry{"symlink", p + suffix, "."})
+	for _, nm := range []struct {
+		suffix   string
+		prefixes []string
+	}{
+		{"/n/f", []string{"a", "b", "c", "a/b", "a/c"}},
+		{"/n/m/f", vmc.Pick(r, []string{"a", "b", "c"}, []string{"a", "b", "c", "a/b", "a/c"})},
+	} {
+		for _, p := range nm.prefixes {
+			deep = append(deep, c27hEntry{"file", p + nm.suffix, ""}, c27hEntry{"dir", p + nm.suffix, ""},
+				c27hEntry{"hardlink", p + nm.suffix, "."}, c27hEntry{"symlink", p + nm.suffix, "."})
 		}
 	}
 	var cases []c27hCase
@@ -252,6 +305,19 @@ func TestVerif_C27_Health(t *testing.T) {
 	if workers > 16 {
 		workers = 16
 	}
+	worlds := make([]*c27hWorld, workers)
+	for i := range worlds {
+		w, err := c27hNewWorld()
+		if err != nil {
+			r.HarnessError("scratch tree: %v", err)
+			if err := r.Finish(); err != nil {
+				t.Fatal(err)
+			}
+			return
+		}
+		defer os.RemoveAll(w.root)
+		worlds[i] = w
+	}
 	const batch = 4096
 	for lo := 0; lo < len(cases) && !r.Expired(); lo += batch {
 		hi := lo + batch
@@ -261,18 +327,18 @@ func TestVerif_C27_Health(t *testing.T) {
 		res := make([]c27hRes, hi-lo)
 		var wg sync.WaitGroup
 		var next atomic.Int64
-		for w := 0; w < workers; w++ {
+		for _, w := range worlds {
 			wg.Add(1)
-			go func() {
+			go func(w *c27hWorld) {
 				defer wg.Done()
 				for {
 					i := int(next.Add(1)) - 1
 					if i >= hi-lo {
 						return
 					}
-					res[i] = c27hExec(cases[lo+i])
+					res[i] = w.exec(cases[lo+i])
 				}
-			}()
+			}(w)
 		}
 		wg.Wait()
 		for i := range res {
